@@ -282,7 +282,10 @@ func Run(o Options) int {
 				continue
 			}
 			if o.Prop == "C09" && !o.Sweep {
-				if ob.Kind != "safe" && ob.Kind != "decreases" && ob.Kind != "call-pre" && !vc.TagHasProp(ob.Tag, "C09") {
+				// panic-freedom obligations, plus what their proofs lean on inside the same run: the loop invariants of the
+				// unit (assumed at every loop head) and every clause of a unit whose contract another unit uses
+				if ob.Kind != "safe" && ob.Kind != "decreases" && ob.Kind != "call-pre" && ob.Kind != "inv-entry" && ob.Kind != "inv-keep" &&
+					!vc.TagHasProp(ob.Tag, "C09") && !usedByOthers[u.Key] {
 					continue
 				}
 			} else if !o.Sweep && !isDep[u.Name] && !usedByOthers[u.Key] && !uo.res.Belongs(ob, o.Prop) {
